@@ -261,14 +261,14 @@ OpPruneSubtree(g, x, ub, su) ==
     IF g.par[x] = 0 THEN R(g, "TypeError")
     ELSE LET g1 == GDetach(g, x)
              g2 == IF su THEN Suppress(g1, {}) ELSE g1
-         IN R(IF ub THEN SettleEnc(g2, TRUE, TRUE, {}) ELSE g2, "")
+         IN R(IF ub THEN SettleEnc(g2, su, TRUE, {}) ELSE g2, "")   \* update_bipartitions(suppress_unifurcations=su), repo fix ff5a81b6
 \* prune_taxa(S) followed by the recursive removal of leaves without taxa
 RECURSIVE HasKept(_, _, _)
 HasKept(g, x, S) == IF IsLeaf(g, x) THEN g.tx[x] # 0 /\ g.tx[x] \notin S ELSE \E c \in KidSet(g, x) : HasKept(g, c, S)
 OpPruneTaxa(g, S, ub, su) ==
     LET g1 == [g EXCEPT !.kids = [x \in 1..g.n |-> SelectSeq(g.kids[x], LAMBDA c : HasKept(g, c, S))]]
         g2 == IF su THEN Suppress(g1, {}) ELSE g1
-    IN R(IF ub THEN SettleEnc(g2, TRUE, TRUE, {}) ELSE g2, "")
+    IN R(IF ub THEN SettleEnc(g2, su, TRUE, {}) ELSE g2, "")   \* update_bipartitions(suppress_unifurcations=su), repo fix ff5a81b6
 \* retain_taxa(S): prune every taxon of the namespace not in S (allTaxa = the namespace's codes)
 OpRetainTaxa(g, S, allTaxa, ub, su) == OpPruneTaxa(g, allTaxa \ S, ub, su)
 \* ladderize: children sorted (stable) by number of descendants; reorder: by taxon label (code order here)
@@ -372,6 +372,11 @@ DocumentedErrors(c, pre) ==
     CASE c.a = "PruneSubtree" /\ pre.par[c.x] = 0 -> {"TypeError"}
       [] c.a = "CollapseEdge" /\ pre.par[c.x] # 0 /\ IsLeaf(pre, c.x) -> {"ValueError"}
       [] c.a = "RemoveChild" /\ (pre.par[c.x] # c.y \/ ~SqHas(pre.kids[c.y], c.x)) -> {"ValueError"}
+      \* refused calls (error-path family): the misuse is named by an explicit raise / assert in the library
+      [] c.a = "RemoveNonChild" -> {"ValueError"}                       \* y.remove_child(x), x not a child of y
+      [] c.a \in {"AddChildSelf", "AddChildParent"} -> {"AssertionError"} \* x.add_child(x), x.add_child(parent of x)
+      [] c.a = "PruneSubtreeForeign" -> {"TypeError"}                   \* prune_subtree(node without parent)
+      [] c.a \in {"PruneSubtreeNone", "RemoveChildNone", "RemoveChildForeign"} -> {"ValueError"}
       [] OTHER -> {}
 C03Outcome(c, pre) == c.raised = "" \/ c.raised \in DocumentedErrors(c, pre)
 \* reorientations are compared with the pre-state (reroot_at_edge: with the requested lengths on the split edge)
@@ -405,9 +410,18 @@ RefCall(c, g, allTaxa) ==
       [] c.a = "InsertChild" -> OpInsertChild(g, c.y, c.i + 1, c.x)
       [] c.a = "RemoveChild" -> OpRemoveChild(g, c.y, c.x, c.su)
       [] c.a = "EncodeBipartitions" -> OpEncodeBipartitions(g, c.su, c.cb)
+      [] c.a = "RemoveNonChild" -> R(g, "ValueError")
+      [] c.a \in {"AddChildSelf", "AddChildParent"} -> R(g, "AssertionError")
+      [] c.a = "PruneSubtreeForeign" -> R(g, "TypeError")
+      [] c.a \in {"PruneSubtreeNone", "RemoveChildNone", "RemoveChildForeign"} -> R(g, "ValueError")
+      [] c.a = "ReseedAtForeign" -> R(g, "")        \* reseed_at(node without parent that is not the seed): returns, nothing done
       [] c.a = "ReAddChild" -> R(g, "")            \* add_child of a node that already is a child: documented no-op
 HasReference == {"ReseedAt", "RerootAtNode", "RerootAtEdge", "RerootAtMidpoint", "ToOutgroupPosition", "Deroot",
                  "CollapseBasalBifurcation", "SuppressUnifurcations", "CollapseEdge", "CollapseClade", "CollapseUnweightedEdges",
                  "ResolvePolytomies", "PruneSubtree", "PruneTaxa", "RetainTaxa", "Ladderize", "Reorder", "NewChild",
-                 "InsertNewChild", "InsertChild", "RemoveChild", "EncodeBipartitions", "ReAddChild"}
+                 "InsertNewChild", "InsertChild", "RemoveChild", "EncodeBipartitions", "ReAddChild",
+                 "RemoveNonChild", "AddChildSelf", "AddChildParent", "PruneSubtreeForeign", "PruneSubtreeNone", "RemoveChildNone",
+                 "RemoveChildForeign", "ReseedAtForeign"}
+ErrorPathActions == {"RemoveNonChild", "AddChildSelf", "AddChildParent", "PruneSubtreeForeign", "PruneSubtreeNone", "RemoveChildNone",
+                     "RemoveChildForeign"}
 =============================================================================
